@@ -21,7 +21,7 @@ META = {
         'C15.COV - the decomposed matrix is np.cov / np.corrcoef of the (standardised) data over columns, i.e. mean-centred; '
         'C15.PURE-PROPS - the lazy properties of computechi2 and pcomp neither assign attributes nor write in place into attribute '
         'arrays (reading them in any order gives the same values); C15.PINV - computechi2 forms the pseudo-inverse from every singular value, with no absolute cut-off; C15.SYNW - the synthetic weights of pca_solve never become 0 for a pixel masked in every spectrum; C15.USEMASK - pca_solve returns outmask.sum(0), the count of good '
-        'spectra per pixel. C15.DOF - degrees of freedom count sqivar > 0 minus nstar; C15.NORM - normbase takes the rms over the current length of self.g. C15.CHI2-RESID - computechi2.chi2 is formed from the residual vector (difference, square, sum), not by a cancelling normal-equation shortcut; NOT decided: every optimality, monotonicity, normalisation and projection statement (numerical).'),
+        'spectra per pixel. C15.DOF - degrees of freedom count sqivar > 0 minus nstar; C15.NORM - normbase takes the rms over the current length of self.g. C15.CHI2-RESID - computechi2.chi2 is formed from the residual vector (difference, square, sum), not by a cancelling normal-equation shortcut; C15.FLOAT-OUT - an array computechi2 allocates for weighted templates is not given the dtype of the templates themselves (no instance while the product is one promoted expression); NOT decided: every optimality, monotonicity, normalisation and projection statement (numerical).'),
     'floors': {'C15.CHI2-RESID': 1, 'C15.DOF': 1, 'C15.NORM': 1, 'C15.HMF-IMMUT': 2, 'C15.SEED': 2, 'C15.EIG-ALIGN': 2, 'C15.COV': 2, 'C15.PURE-PROPS': 10, 'C15.USEMASK': 1, 'C15.PINV': 2, 'C15.SYNW': 1},
 }
 
@@ -362,6 +362,11 @@ def check_chi2_resid(ctx, repo):
 
 def run(ctx):
     from ..memo import check_memo_keys
+    from .floatlib import check_float_alloc
+    # C15.FLOAT-OUT: the weighted design matrix of computechi2 is not allocated in the dtype of the templates (zero instances while it is
+    # built by one arithmetic expression, which NumPy promotes)
+    check_float_alloc(ctx, ctx.repo, 'C15.FLOAT-OUT', [(MATH, 'computechi2.__init__')],
+                      'integer (or single-precision) templates give truncated weighted templates, and with them wrong coefficients, fit and chi-square')
     check_chi2_resid(ctx, ctx.repo)
     check_memo_keys(ctx, ctx.repo, SPEC1D, 'HMF', 'C15.MEMO-KEY')
     check_dof_norm(ctx, ctx.repo)
